@@ -1023,7 +1023,38 @@ pub fn gen_c05(thorough: bool, rng: &mut Rng, out: &mut Vec<String>) {
             // the model parser reads the writer's own output
             if let Ok(w) = lib.to_string() { out.push(format!("lef.parse {}", text_hex(&w))); }
         }
+        if i % 3 == 0 {
+            // the reader accepts header statements more than once (the last one wins), in any
+            // position between definitions: libraries read from such texts are in its image too
+            let t = repeated_headers(&txt, rng);
+            out.push(format!("lef.wr {}", text_hex(&t)));
+            out.push(format!("lef.parse {}", text_hex(&t)));
+        }
     }
+}
+/// `txt` with further header statements (VERSION of any supported value included) put in front of
+/// it and after its last definition
+fn repeated_headers(txt: &str, rng: &mut Rng) -> String {
+    const HEADERS: &[&str] = &["VERSION 5.3 ;", "VERSION 5.4 ;", "VERSION 5.5 ;", "VERSION 5.6 ;", "VERSION 5.7 ;", "VERSION 5.8 ;",
+        "NAMESCASESENSITIVE ON ;", "NAMESCASESENSITIVE OFF ;", "NOWIREEXTENSIONATPIN ON ;", "BUSBITCHARS \"<>\" ;", "DIVIDERCHAR \":\" ;",
+        "MANUFACTURINGGRID 0.005 ;", "USEMINSPACING OBS OFF ;", "CLEARANCEMEASURE EUCLIDEAN ;", "FIXEDMASK ;",
+        "UNITS DATABASE MICRONS 1000 ; END UNITS", "MACRO extra SOURCE USER ; END extra", "MACRO extra2 SIZE 1 BY 2 ; END extra2"];
+    let body = {
+        // drop a trailing END LIBRARY so that statements can follow the last definition
+        let t = txt.trim_end();
+        let up = t.to_ascii_uppercase();
+        if up.ends_with("LIBRARY") {
+            let cut = up[..up.len() - 7].trim_end();
+            if cut.ends_with("END") { t[..cut.len() - 3].to_string() } else { t.to_string() }
+        } else { t.to_string() }
+    };
+    let mut o = String::new();
+    for _ in 0..rng.below(3) { o.push_str(HEADERS[rng.below(HEADERS.len() as u64) as usize]); o.push('\n'); }
+    o.push_str(&body);
+    o.push('\n');
+    for _ in 0..(1 + rng.below(3)) { o.push_str(HEADERS[rng.below(HEADERS.len() as u64) as usize]); o.push('\n'); }
+    o.push_str("END LIBRARY\n");
+    o
 }
 const FAULT_WORDS: &[&str] = &["MACRO", "END", "PIN", "LAYER", ";", "1.5", "-", "\"unterminated", "RECT", "LIBRARY", "PROPERTY", "BEGINEXT", "VERSION", "9.9", "UNITS", "é", "VIA", "ITERATE", "DO", "+", ".", "#", "\"", "OBS", "PORT", "DENSITY", "VIARULE", "PROPERTYDEFINITIONS", "RANGE", "MASK"];
 pub fn gen_c11(thorough: bool, rng: &mut Rng, out: &mut Vec<String>) {
